@@ -26,8 +26,22 @@ class Infra(Exception):
 # --------------------------------------------------------------------------------------
 # source scanning
 
+_RAW_RX = re.compile(r'b?r(#*)"')
+_MASK_CACHE = {}
+
+
 def code_mask(src):
     """mask[i] is True when src[i] is code (not inside a comment, string or char literal)."""
+    m = _MASK_CACHE.get(src)
+    if m is None:
+        m = _code_mask(src)
+        if len(_MASK_CACHE) > 64:
+            _MASK_CACHE.clear()
+        _MASK_CACHE[src] = m
+    return m
+
+
+def _code_mask(src):
     n = len(src)
     code = [True] * n
     i = 0
@@ -57,7 +71,7 @@ def code_mask(src):
             i = j
             continue
         # raw strings r"..", r#".."#, br".."
-        m = re.compile(r'b?r(#*)"').match(src, i)
+        m = _RAW_RX.match(src, i) if c in 'rb' else None
         if m and (i == 0 or not (src[i - 1].isalnum() or src[i - 1] == '_')):
             close = '"' + m.group(1)
             j = src.find(close, m.end())
@@ -343,13 +357,18 @@ class Text:
             out.append((m.start(), i))
         return out
 
-    def loop_spec(self, k, spec, note=''):
+    def loop_spec(self, k, spec, note='', iter_name=None):
         ls = self.loops()
         if k >= len(ls):
             self.lost.append('loop #%d' % k)
             return False
         kw, brace = ls[k]
         self.edit('S-loop', brace, brace, '\n' + spec + '\n', note)
+        if iter_name:
+            # R14: `for PAT in EXPR` becomes `for PAT in NAME: EXPR` (Verus needs a name for the ghost iterator)
+            m = re.compile(r'\bin\s+').search(self.t, kw)
+            if m and m.end() < brace:
+                self.edit('R14', m.end(), m.end(), iter_name + ': ')
         return True
 
     def at_body_start(self, text, note=''):
@@ -405,7 +424,7 @@ def r4_closure_underscore(body: Text):
 
 
 def r3_ctor_as_fn(body: Text):
-    body.sub_code('R3', r'\.(map|map_err|and_then)\(\s*(Err|Ok|Some)\s*\)', r'.\1(|e| \2(e))')
+    body.sub_code('R3', r'\.(map|map_err|and_then)\(\s*(Err|Ok|Some|Bytes::from)\s*\)', r'.\1(|e| \2(e))')
 
 
 def r8_cfg(body: Text):
@@ -519,8 +538,10 @@ def r5_mut_self(sig: Text, body: Text):
     m = re.search(r'\(\s*mut\s+self\s*[,)]', sig.t)
     if not m:
         return False
-    sig.sub_code('R5', r'\bmut\s+self\b', 'mut this: Self')
+    sig.sub_code('R5', r'\bmut\s+self\b', 'self')
     body.sub_code('R5', r'\bself\b', 'this')
+    p = body.t.find('{')
+    body.edit('R5', p + 1, p + 1, '\n        let mut this = self;')
     return True
 
 
@@ -551,6 +572,7 @@ class Unit:
         self.expected_fail = set()
         self.not_covered = []
         self.prelude_files = []
+        self.prelude_ranges = []
 
     # ---- emit helpers ----
     def _emit(self, text):
@@ -564,6 +586,7 @@ class Unit:
             txt = open(p).read()
             self.prelude_files.append(f)
             a, b = self._emit('// ---- prelude: %s (assumed contracts) ----\n' % f + txt.rstrip('\n'))
+            self.prelude_ranges.append((a, b))
             for m in re.finditer(r'//\s*(A-[\w-]+)\s*:\s*(.*)', txt):
                 self.trusted.append('%s: %s' % (m.group(1), m.group(2).strip()))
 
@@ -669,10 +692,16 @@ class Unit:
         for k, spec in (closures or {}).items():
             _closure_contract(body, k, spec)
         for k, spec in sorted((loops or {}).items(), reverse=True):
-            body.loop_spec(k, _loop_text(spec))
+            body.loop_spec(k, _loop_text(spec), iter_name=(spec.get('iter') if isinstance(spec, dict) else None))
         for h in hints:
             where, needle, text = h[0], h[1], h[2]
             nthh = h[3] if len(h) > 3 else 0
+            # fallback anchors: (where, needle, nth) alternatives tried in order when the primary anchor is gone
+            if body.find_code(needle, nthh) < 0 and len(h) > 4:
+                for (w2, n2, k2) in h[4]:
+                    if body.find_code(n2, k2) >= 0:
+                        where, needle, nthh = w2, n2, k2
+                        break
             if where == 'replace':
                 pz = body.find_code(needle, nthh)
                 if pz < 0:
@@ -737,6 +766,43 @@ class Unit:
             self._emit('}')
             self._open_header = None
         return body
+
+    def exec_const(self, file, name, ensures, props=None, indent='    '):
+        """R13: `const NAME: T = EXPR;` (an initialiser that calls exec const fns) becomes
+        `exec const NAME: T ensures .. { EXPR }`; the ensures clauses are obligations like any other."""
+        props = props or self.props
+        src = open(os.path.join(REPO, file)).read()
+        item_start, start, end = find_item(src, 'const', name)
+        t = Text(src[start:end], '%s::%s' % (file, name))
+        r8_cfg(t)
+        m = re.match(r'\s*(pub(\([a-z]+\))?\s+)?const\s+', t.t)
+        t.edit('R13', 0, m.end(), 'pub exec const ')
+        # `: TYPE = EXPR;`
+        code = code_mask(t.t)
+        eq = next(i for i, ch in enumerate(t.t) if ch == '=' and code[i] and t.t[i + 1] != '=' and t.t[i - 1] not in '=!<>')
+        semi = t.t.rstrip().rfind(';')
+        t.edit('R13', semi, semi + 1, ' }')
+        disp = 'const ' + name
+        ens_lines = []
+        t.check_reversible()
+        self.functions.append(dict(item=disp, file=file, lines=[src.count('\n', 0, start) + 1, src.count('\n', 0, end) + 1],
+                                   sha256=hashlib.sha256(src[start:end].encode()).hexdigest()))
+        self.rewrites += [dict(item=disp, rule=e['rule'], old=e['old'][:80], new=e['new'][:80]) for e in t.log]
+        head, tail = t.t[:eq], t.t[eq + 1:]
+        a0 = len(self.lines) + 1
+        self._emit(indent + head.strip())
+        self._emit(indent + '    ensures')
+        for c in ensures:
+            if not isinstance(c, Clause):
+                c = Clause(*c)
+            ob = '%s::%s::%s' % (self.name, disp, c.label)
+            a, b = self._emit(indent + '        ' + c.text + ',')
+            self.labels.append((a, b, ob))
+            self.obligations[ob] = dict(props=c.props or props, kind='ensures', fn=disp, text=norm_ws(c.text)[:400])
+        self._emit(indent + '{' + tail)
+        safety = '%s::%s::safety' % (self.name, disp)
+        self.obligations[safety] = dict(props=props, kind='safety', fn=disp, text='initialiser preconditions hold')
+        self.fn_ranges.append((a0, len(self.lines), disp, safety))
 
     def const_guard(self, file, name, expect_norm, shim):
         """A constant whose initialiser Verus cannot evaluate (size_of): the extractor checks that the source text is
